@@ -29,7 +29,7 @@ ASSUMPTIONS = [
     "ACL patterns never split the rows of one rulebook (rule,key): they are the rulebook's patterns, widened (*, truncation + ~) or narrowed to one key",
     "rulebook logics emit only the row or its negation (default, undo_redo, ordered)",
 ]
-FLOORS = {"quick": {"patches_checked": 2000, "commands_checked": 3000, "uncovered_rows_checked": 3000, "cant_delete_rows_checked": 150, "composition_checked": 2000, "front_runs_with_acl": 300, "front_runs_empty_acl": 10, "front_runs_acl_safe": 150, "flat_vendor_cases": 400, "second_devices_with_shared_acl": 800, "shared_subrule_acl_cases": 300},
+FLOORS = {"quick": {"patches_checked": 2000, "commands_checked": 3000, "uncovered_rows_checked": 3000, "cant_delete_rows_checked": 150, "composition_checked": 2000, "front_runs_with_acl": 300, "front_runs_empty_acl": 10, "front_runs_acl_safe": 150, "flat_vendor_cases": 400, "second_devices_with_shared_acl": 800, "shared_subrule_acl_cases": 300, "front_runs_filter_acl": 150, "deploy_front_runs": 500},
           "thorough": {"patches_checked": 60000, "commands_checked": 90000, "uncovered_rows_checked": 90000, "cant_delete_rows_checked": 4000, "composition_checked": 60000}}
 VENDORS = c01.BLOCK_VENDORS
 
@@ -305,7 +305,7 @@ def judge_patch(acc, w, vname, U, old, paths, al, ag, tag="", flat=False):
     return acc.counters.get("uncovered_rows_checked", 0) - before
 
 
-def check_front(seed, acc, safe=False):
+def check_front(seed, acc, safe=False, filt=False):
     """the same safety clauses through the production front end _old_new_per_device (generators -> combined ACL -> old/new -> patch);
     safe=True: the --acl-safe mode, where only the generators' acl_safe texts make up the ACL the patch is confined to"""
     from annet.api import _diff_and_patch
@@ -340,13 +340,22 @@ def check_front(seed, acc, safe=False):
         elif supported and text.strip():
             ref_acl += GA.tag_generator(a, "Gen%d" % i)
     rtext = RB.render(U)
-    w = {"front": True, "safe": safe, "seed": seed, "vendor": vname, "rulebook": rtext, "old": plain(old),
+    ftext, fref = None, None
+    if filt:
+        # --filter-acl: the operator narrows the run to a part of the configuration; the patch must stay inside BOTH ACLs
+        frng = random.Random(seed ^ 0xF1)
+        fref = GA.gen_acl(frng, U, p_include=0.6)
+        ftext = A.render(fref)
+        if not ftext.strip():
+            fref, ftext = [A.AclRule("~", glob=True)], "~ %global"
+        acc.count("front_runs_filter_acl")
+    w = {"front": True, "safe": safe, "filt": filt, "filter_acl": ftext, "seed": seed, "vendor": vname, "rulebook": rtext, "old": plain(old),
          "generators": [{"name": type(g_).__name__, "supported": bool(g_.supports_device(H.FakeDevice(hw)))} for g_ in gens],
          "acl": A.render(ref_acl)}
     device = H.FakeDevice(hw)
     try:
         rb = c01.compile_rb(rtext, vname)
-        res = H.old_new(device, gens, fmt.join(old), no_acl_exclusive=True, acl_safe=safe)
+        res = H.old_new(device, gens, fmt.join(old), no_acl_exclusive=True, acl_safe=safe, filter_acl_text=ftext)
     except GeneratorError:
         acc.count("front_skipped_generator_error")
         return None
@@ -369,6 +378,9 @@ def check_front(seed, acc, safe=False):
         acc.count("front_runs_acl_safe")
     al, ag = A.compile_level(ref_acl, ideal=True)
     unc = judge_patch(acc, w, vname, U, old, paths, al, ag, tag="")
+    if filt:
+        fl, fg = A.compile_level(fref, ideal=True)
+        judge_patch(acc, w, vname, U, old, paths, fl, fg, tag="/filter-acl")
     acc.case(["front", vname, rtext, w["acl"], w["old"], w["commands"]], nontrivial=bool(unc and paths))
     # the deploy front end (CliDeployerJob) on the same front-end result and options must hand the driver the same commands
     import types as _t
@@ -409,7 +421,7 @@ def check_front(seed, acc, safe=False):
 def run_shard(spec, acc):
     if spec["mode"] == "replay":
         if spec["witness"].get("front"):
-            check_front(spec["witness"]["seed"], acc, safe=bool(spec["witness"].get("safe")))
+            check_front(spec["witness"]["seed"], acc, safe=bool(spec["witness"].get("safe")), filt=bool(spec["witness"].get("filt")))
         else:
             check_case(spec["witness"]["seed"], acc, flat=bool(spec["witness"].get("flat")), shared=bool(spec["witness"].get("shared")))
         return
@@ -424,6 +436,8 @@ def run_shard(spec, acc):
             check_front(rng.randrange(1 << 48), acc)
         if j % 6 == 1:
             check_front(rng.randrange(1 << 48), acc, safe=True)
+        if j % 6 == 4:
+            check_front(rng.randrange(1 << 48), acc, filt=True)
         if j % 4 == 2:
             check_case(rng.randrange(1 << 48), acc, flat=True)
         if j % 4 == 0:
